@@ -274,6 +274,18 @@ func usableHistory(o *kit.Out, r *kit.Rand) {
 	})
 	ctx, cancel := context.WithCancel(context.Background())
 	wctx := pool.Start(ctx)
+	prelude := ""
+	if r.Bool() {
+		// ticks that ask for nothing (zero, or a negative value as a staged or jittered rate can
+		// produce) come first: the workers are idle when the real tick arrives
+		for k := int(r.Range(1, 3)); k > 0; k-- {
+			v := int(kit.Pick(r, int64(0), -1, -1, -7))
+			pool.Trigger(wctx, v)
+			prelude += strconv.Itoa(v) + " "
+			time.Sleep(time.Duration(r.Range(0, 3)) * time.Millisecond)
+		}
+		o.Count("history", "one tick after ticks asking for nothing")
+	}
 	pool.Trigger(wctx, n)
 	deadline := time.Now().Add(5 * time.Second)
 	for ob.started.Load() < int64(n) && time.Now().Before(deadline) {
@@ -287,7 +299,7 @@ func usableHistory(o *kit.Out, r *kit.Rand) {
 	_ = stats
 	o.Count("history", "one tick, all workers usable")
 	if !ok.Load() {
-		o.Fail("not-all-workers-usable", fmt.Sprintf("one tick of %d requests on a pool of %d workers: the workers never all executed at the same time (at most %d did)", n, nw, ob.hwm.Load()))
+		o.Fail("not-all-workers-usable", fmt.Sprintf("ticks %s%d on a pool of %d workers: the workers never all executed at the same time (at most %d did)", prelude, n, nw, ob.hwm.Load()))
 	}
 	o.Case("c04_ok", []string{kit.I(ob.hwm.Load()), kit.I(nw), kit.B(ob.shared.Load()), kit.B(ok.Load())}, "T", "usable", "conc", "nt")
 }
